@@ -139,7 +139,8 @@ w("""### 2.3 Back ends
   cases. Oracles are independent of the code: UAX #14 opportunities from `unicode-linebreak` directly, widths from
   `unicode-width` directly, ANSI stripping and "well-formed" from the property text, minimum cost by brute force in exact
   integers. Failures may carry an input class (`[class=…]`), collected separately so that a recorded finding can never
-  crowd out a different violation.
+  crowd out a different violation. Escape sequences in the wrap-level alphabets are terminated ones (the texts C10 and C13 speak about); unterminated
+  openers appear where they are the point: C04's adversarial alphabet (totality), C10's (the skipper itself) and C20's (known finding KF7).
 
 ### 2.4 Verdicts
 
